@@ -444,7 +444,9 @@ def run_history(acc, sch, w, mod, tname, tags, rng, length, ops=None):
         else:
             import prophy
             acc.count('states_with_unequal_shared_sizer_arrays')
-            if err is None or not isinstance(err, prophy.ProphyError):
+            if isinstance(err, TypeError) and unset_seen:
+                acc.count('encode_not_judged_unset_bytes_default_is_str(C01 known finding)')
+            elif err is None or not isinstance(err, prophy.ProphyError):
                 acc.violation(PROP, 'unequal-shared-sizer-arrays-not-refused-with-ProphyError',
                               witness(error=None if err is None else '%s: %s' % (type(err).__name__, err)))
                 return
